@@ -13854,7 +13854,7 @@ func (p *parser) visitExprInOut(expr js_ast.Expr, in exprIn) (js_ast.Expr, exprO
 					p.jsxSourceColumn = 0
 				} else {
 					// Babel and TypeScript count columns in UTF-16 code units
-					if r < 0xFFFF {
+					if r <= 0xFFFF {
 						p.jsxSourceColumn++
 					} else {
 						p.jsxSourceColumn += 2
